@@ -230,6 +230,7 @@ def decision_table(stmts: Sequence[ast.stmt], atoms: Sequence[Atom], outputs: Se
     for bits in itertools.product((False, True), repeat=len(atoms)):
         val = dict(zip(names, bits))
         env: Dict[str, str] = {}
+        env_ast: Dict[str, ast.AST] = {}
 
         def run(block):
             for st in block:
@@ -255,8 +256,20 @@ def decision_table(stmts: Sequence[ast.stmt], atoms: Sequence[Atom], outputs: Se
                         v = v.body if _ev_atoms(v.test, val, atoms) else v.orelse
                     if isinstance(v, ast.Name) and v.id in env:
                         env[key] = env[v.id]
+                        if v.id in env_ast:
+                            env_ast[key] = env_ast[v.id]
                     else:
+                        # a value computed from locals assigned earlier on this path is normalised with them substituted
+                        if env_ast and any(isinstance(x, ast.Name) and x.id in env_ast and not isinstance(env_ast[x.id], ast.Call) for x in ast.walk(v)):
+                            import copy as _copy
+
+                            class _S(ast.NodeTransformer):
+                                def visit_Name(self, node):
+                                    return _copy.deepcopy(env_ast[node.id]) if isinstance(node.ctx, ast.Load) and node.id in env_ast and not isinstance(env_ast[node.id], ast.Call) else node
+
+                            v = ast.fix_missing_locations(_S().visit(_copy.deepcopy(v)))
                         env[key] = normalise(v)
+                        env_ast[key] = v
                 elif isinstance(st, ast.Pass) or (isinstance(st, ast.Expr) and isinstance(st.value, ast.Constant)):
                     continue
                 elif isinstance(st, ast.Return):
